@@ -134,25 +134,24 @@ fn c05a_lzma1_truncated_payload() {
 
 // C06-C2: a read() that failed with a distance error leaves the coder in a match state whose rep0 was never validated;
 // a FURTHER read() on the same reader must return (Ok or Err) - it must not panic while decoding the next symbol.
-//@ {"name":"c06c2_lzma1_read_after_distance_error","props":["C06"],"obligation":"C06-C2","timeout":2400,"mem_gb":13,"functions":["lzma_reader::LZMAReader::read","decoder::LZMADecoder::decode","decoder::LiteralDecoder::decode","decoder::LiteralSubDecoder::decode","lz::lz_decoder::LZDecoder::get_byte","lz::lz_decoder::LZDecoder::repeat"],"bounds":"lc=lp=pb=0, dict 4096, empty dictionary; coder state any non-literal state (7..=11), rep0 any i32 that `repeat` refused (>= filled size), rep1..3 arbitrary; 8 arbitrary compressed bytes; one 1-byte read; unwind 12","assumes":["pre-state = what decode_match + a failing LZDecoder::repeat leave behind (reps[0] is assigned before repeat validates it); fresh probabilities"],"stubs":["LZMADecoder::new -> verif_fresh_decoder"]}
+//@ {"name":"c06c2_lzma1_read_after_distance_error","props":["C06"],"tier":"thorough","obligation":"C06-C2","timeout":5400,"mem_gb":13,"functions":["lzma_reader::LZMAReader::read","decoder::LZMADecoder::decode","decoder::LZMADecoder::decode_match","decoder::LiteralDecoder::decode","lz::lz_decoder::LZDecoder::get_byte","lz::lz_decoder::LZDecoder::repeat"],"bounds":"lc=lp=pb=0, dict 4096, empty dictionary, fresh probabilities; 12 arbitrary compressed bytes whose first symbol is a match (code >= 2^31), which must fail because the dictionary is empty; then a second 1-byte read on the same reader; unwind 30","assumes":["first read returned Err (a match into an empty dictionary always does)"],"stubs":["LZMADecoder::new -> verif_fresh_decoder"]}
 #[kani::proof]
-#[kani::unwind(12)]
+#[kani::unwind(30)]
 #[kani::stub(crate::decoder::LZMADecoder::new, crate::decoder::verif_stubs_dec::verif_fresh_decoder)]
 fn c06c2_lzma1_read_after_distance_error() {
-    let mut b: [u8; 8] = kani::any();
+    let mut b: [u8; 12] = kani::any();
     b[0] = 0;
-    let mut src = Src::<8>::full(b);
+    kani::assume(b[1] >= 0x80); // code >= 2^31 = bound of the first is_match bit: the first symbol is not a literal
+    let mut src = Src::<12>::full(b);
     let rd = LZMAReader::new(&mut src, u64::MAX, 0, 0, 0, 4096, None);
     assert!(rd.is_ok());
     let mut rd = rd.unwrap();
-    let st: u8 = kani::any();
-    kani::assume(st >= 7 && st <= 11);
-    let reps: [i32; 4] = kani::any();
-    // the failed repeat: dist >= full (= 0 here); dist is `reps[0] as usize`, so negative values are huge distances
-    verif_set_state(&mut rd.lzma, st, reps);
     let mut out = [0u8; 1];
-    let r = rd.read(&mut out);
-    kani::cover!(r.is_err(), "second read fails cleanly");
-    kani::cover!(r.is_ok(), "second read returns data");
+    let r1 = rd.read(&mut out);
+    // every non-literal first symbol fails (empty dictionary) except the end marker, which ends the stream
+    kani::assume(r1.is_err());
+    kani::cover!(true, "first read failed with a distance error");
+    let r2 = rd.read(&mut out); // must not panic
+    kani::cover!(r2.is_err(), "second read fails cleanly");
     core::mem::forget(rd);
 }
